@@ -105,6 +105,25 @@ def encode(form, D, nr, nc):
     raise ValueError(form)
 
 
+def _scribble(x):
+    """overwrite every numeric buffer of a constructor argument; False if it has none"""
+    import numpy as np
+    done = False
+    if hasattr(x, 'tocsr'):
+        bufs = [getattr(x, 'data', None)]
+    elif isinstance(x, np.ndarray):
+        bufs = [x]
+    elif isinstance(x, list):
+        bufs = [getattr(r, 'data', None) if hasattr(r, 'tocsr') else r for r in x if isinstance(r, np.ndarray) or hasattr(r, 'tocsr')]
+    else:
+        bufs = []
+    for arr in bufs:
+        if isinstance(arr, np.ndarray) and arr.size:
+            arr[...] = 77.0
+            done = True
+    return done
+
+
 def h_forms(nr, nc, form):
     b = B()
     cells, D = sym_matrix(nr, nc)
@@ -127,6 +146,9 @@ def h_forms(nr, nc, form):
         fail('forms:equal-to-dense-construction', t.descriptive_equality(t0), **sig)
     if t.nnz != sum(1 for r in D for x in r if is_sym(x) or x != 0):
         fail('forms:nnz', str(t.nnz), **sig)
+    # the table holds the described values whatever the caller does with its own buffers afterwards
+    if _scribble(data):
+        same_table('forms:independent-of-input', observe(t), exp, type_=True, **sig)
 
 
 def h_adjacency(nrec, header):
@@ -166,7 +188,7 @@ def h_adjacency(nrec, header):
 ID_VARIANTS = ['ok', 'dup-first-last', 'dup-adjacent', 'too-few', 'too-many']
 MD_VARIANTS = ['none', 'ok', 'ok-with-null', 'too-short', 'too-long', 'string-entry', 'int-entry', 'list-entry',
                'zero-int-entry', 'empty-string-entry', 'empty-list-entry', 'false-entry',
-               'all-zero-ints', 'all-empty-strings', 'too-short-all-null', 'too-long-all-null']
+               'all-zero-ints', 'all-empty-strings', 'too-short-all-null', 'too-long-all-null', 'empty-list', 'empty-tuple']
 
 
 def _ids(variant, base):
@@ -188,7 +210,7 @@ def _md(variant, n):
             'zero-int-entry': [0] + ok[1:], 'empty-string-entry': ok[:-1] + [''], 'empty-list-entry': [[]] + ok[1:],
             'false-entry': ok[:-1] + [False],
             'all-zero-ints': [0] * n, 'all-empty-strings': [''] * n, 'too-short-all-null': [None] * (n - 1),
-            'too-long-all-null': [None] * (n + 1)}[variant]
+            'too-long-all-null': [None] * (n + 1), 'empty-list': [], 'empty-tuple': ()}[variant]
 
 
 def h_malformed(nr, nc, form, oid_v, sid_v):
